@@ -107,6 +107,7 @@ let exec toks =
       let base =
         if n = 5 && List.mem N0 ws then base @ [ s_res s_n hrv; s_res (fun x -> s_hr (hr_from x)) hrv ] else base in
       String.concat " " base
+  | "fipp" -> (match find_in_products c (List.hd (nums ())) with Ok _ -> "ok" | Panic -> "P" | Diverge -> "DIVERGE")
   | "fip" -> s_res s_n (find_in_products c (List.hd (nums ())))
   | "pred5" ->
       let ws = nums () in
